@@ -3,7 +3,7 @@ from __future__ import annotations
 import sys, os, json, importlib, traceback
 from .engine import Unsupported
 
-MODULES = ['tr_state', 'tr_validators', 'tr_has_patcher', 'tr_contracts', 'tr_rules', 'tr_decorators', 'tr_dispatch', 'tr_invariant', 'tr_extractor', 'tr_objmodel', 'tr_pin_contracts', 'tr_pin_introspect', 'tr_pin_inherit', 'tr_pin_invariant', 'tr_pin_imports', 'tr_testing', 'tr_transformer', 'tr_lint', 'tr_lintdriver', 'tr_lintexec'] + ['tr_rest_' + g for g in ['validators', 'patcher', 'state', 'dispatch', 'errors', 'decorators', 'testing', 'imports', 'lintcontract', 'lintrules', 'trace', 'decoratecli', 'lintglue', 'linttables', 'transformerconst', 'contractsconst', 'errsource', 'records', 'stubfile', 'climain', 'lintmisc']]
+MODULES = ['tr_state', 'tr_validators', 'tr_has_patcher', 'tr_contracts', 'tr_rules', 'tr_decorators', 'tr_dispatch', 'tr_invariant', 'tr_extractor', 'tr_attach', 'tr_objmodel', 'tr_pin_contracts', 'tr_pin_introspect', 'tr_pin_inherit', 'tr_pin_invariant', 'tr_pin_imports', 'tr_testing', 'tr_transformer', 'tr_lint', 'tr_lintdriver', 'tr_lintexec'] + ['tr_rest_' + g for g in ['validators', 'patcher', 'state', 'dispatch', 'errors', 'decorators', 'testing', 'imports', 'lintcontract', 'lintrules', 'trace', 'decoratecli', 'lintglue', 'linttables', 'transformerconst', 'contractsconst', 'errsource', 'records', 'stubfile', 'climain', 'lintmisc']]
 
 
 def run(repo: str, outdir: str, modules=None) -> dict:
